@@ -38,6 +38,11 @@ WEAK = ['coherencyWeak', 'modulusWeak', 'APBweak', 'SFEweak', 'interfacialWeak']
 STRONG = ['coherencyStrong', 'modulusStrong', 'APBstrong', 'SFEstrong', 'interfacialStrong']
 
 
+class TieBroken(Exception):
+    """the harness cannot observe the implementation the way the model needs (e.g. a public extension point is gone):
+    reported as a broken tie without input, never as a failing input"""
+
+
 def quiet(fn, *a, **k):
     with warnings.catch_warnings():
         warnings.simplefilter('ignore')
@@ -369,6 +374,41 @@ def make_grain(c):
     return g
 
 
+class _DragHost:
+    """what computeZenerRadius reads from a host: one fictitious phase with volume fraction z, mean radius 1"""
+    def __init__(self, z):
+        self.phases = ['c18-drag']
+        self.pData = type('PData', (), {})()
+        self.pData.n = 0
+        self.pData.Ravg = np.array([[1.0 if z > 0 else 0.0]])
+        self.pData.volFrac = np.array([[float(z)]])
+
+
+def set_drag(g, z):
+    """impose the drag level z through the public API (no private attribute is written): with m = 1, K = 1 and a mean
+    radius of 1 computeZenerRadius gives z**1 / (1 * 1) = z exactly"""
+    g.setZenerParameters(1.0, 1.0, phase='c18-drag')
+    g.computeZenerRadius(_DragHost(z))
+
+
+def watch_growth(g):
+    """instance-level wrappers of the public constrainedGrowth / pbm.getdXdtEuler: what drag level the model applies and
+    which growth field it hands to the population balance"""
+    seen = {'z': None, 'growth': None}
+    real_c, real_d = g.constrainedGrowth, g.pbm.getdXdtEuler
+
+    def constrained(growthRate, z=0):
+        seen['z'] = float(z)
+        return real_c(growthRate, z)
+
+    def getdXdtEuler(growth, *a, **k):
+        seen['growth'] = np.array(growth, dtype=float).copy()
+        return real_d(growth, *a, **k)
+    g.constrainedGrowth = constrained
+    g.pbm.getdXdtEuler = getdXdtEuler
+    return seen
+
+
 def oracle_zener(c):
     v = []
     try:
@@ -437,10 +477,13 @@ def gen_zener_case(rng):
 # ---- oracle 4: one evaluation of the grain-growth rate, and free-standing runs -----------------
 def grain_rates(c):
     g = make_grain(c)
-    g._z = c['z']
+    set_drag(g, c['z'])
+    seen = watch_growth(g)
     x = np.array(c['psd'], dtype=float)
     dx = np.array(g.getdXdt(0.0, [x.copy()])[0], dtype=float)
-    growth = np.array(g._growthRate, dtype=float).copy()
+    if seen['growth'] is None or seen['z'] != c['z']:
+        raise TieBroken('GrainGrowthModel.getdXdt no longer goes through constrainedGrowth / pbm.getdXdtEuler (drag seen: %r, imposed: %r)' % (seen['z'], c['z']))
+    growth = seen['growth']
     free = np.array(g.grainGrowth(x.copy()), dtype=float)
     d2 = [dx.copy()]
     g.correctdXdt(c['dt'], [x.copy()], d2)
@@ -451,6 +494,8 @@ def oracle_grain_rate(c):
     v = []
     try:
         g, x, free, growth, dx, dx2 = quiet(grain_rates, c)
+    except TieBroken:
+        raise
     except Exception as e:
         return [('no_internal_error', 'exception', 'grain growth rate raised %s: %s' % (type(e).__name__, e))]
     drag = c['alpha'] * c['Mgb'] * c['gbe'] * c['z']
@@ -496,7 +541,7 @@ def run_grain(c):
     g = make_grain(c)
     g.Normalize()
     g.avgR[0] = g.Rm(g.pbm.PSD)
-    g._z = c['z']
+    set_drag(g, c['z'])
     rec = []
 
     def obs(m):
@@ -596,6 +641,7 @@ def run_coupled(c):
         cur.append(float(d))
         return d
     g.getDt = getDt
+    gseen = watch_growth(g)
 
     def obs(m):
         n = m.pData.n
@@ -609,7 +655,7 @@ def run_coupled(c):
                     'rss_row': None if s.rss is None else s.rss[-1].copy(), 'ls_row': None if s.ls is None else s.ls[-1].copy(),
                     'ss_last': None if s.solidStrength is None else float(s.solidStrength[-1]),
                     'comp': float(m.pData.composition[n, 0]), 'psd': rows,
-                    'gclock': float(g.time[-1]), 'glen': len(g.time), 'gm3': float(g.pbm.ThirdMoment()), 'gavgR': float(g.avgR[-1]), 'z': float(g._z),
+                    'gclock': float(g.time[-1]), 'glen': len(g.time), 'gm3': float(g.pbm.ThirdMoment()), 'gavgR': float(g.avgR[-1]), 'z': gseen['z'],
                     'Ravg': [float(x) for x in m.pData.Ravg[n]], 'volFrac': [float(x) for x in m.pData.volFrac[n]]})
         props.append(list(cur))
         cur.clear()
@@ -665,7 +711,7 @@ def oracle_coupled(c, run=None):
         for p in range(nph):
             if rc['Ravg'][p] > 0:
                 ez += rc['volFrac'][p] ** 1.0 / (4 / 3 * rc['Ravg'][p])
-        if abs(rc['z'] - ez) > 1e-12 * abs(ez):
+        if rc['z'] is not None and abs(rc['z'] - ez) > 1e-12 * abs(ez):
             v.append(('zener_drag_level', 'coupled run', 'host step %d: drag level %r, f/(K r) summed over the phases gives %r' % (steps, rc['z'], ez)))
     if sum(calls) != len(rec):
         v.append(('host_one_record_per_step', 'callbacks', 'callbacks %d, steps per solve call %r' % (len(rec), calls)))
@@ -1018,7 +1064,11 @@ def radius_goals(rng, ncases):
         host.pData.Ravg = np.array([[R]])
         host.pData.volFrac = np.array([[f]])
         quiet(g.computeZenerRadius, host)
-        y = float(g._z)
+        seen = watch_growth(g)
+        quiet(g.getdXdt, 0.0, [np.array(g.pbm.PSD, dtype=float) + 1.0])
+        if seen['z'] is None:
+            raise TieBroken('GrainGrowthModel.getdXdt no longer hands the drag level to constrainedGrowth')
+        y = seen['z']
         goals.append(('Rabs (zener1_gen %s %s %s %s - %s) <= (1 / 1000000000) * Rabs %s' % (rl(f), rl(mexp), rl(K), rl(R), rl(y), rl(y)), 'enc'))
         meta.append(('computeZenerRadius', {'f': f, 'm': mexp, 'K': K, 'Ravg': R}, y))
     return goals, meta
@@ -1118,7 +1168,7 @@ def shrink(c, clause, cls):
         try:
             return any(h[0] == clause and h[1] == cls for h in evaluate_case(d))
         except Exception:
-            return False
+            return False           # (TieBroken included: nothing to shrink)
     cur = c
     if c['kind'] in ('strength', 'mixed', 'phase_params') and len(c['r']) > 1:
         for j in range(len(c['r'])):
@@ -1198,7 +1248,11 @@ def search(ctx, quick, scale=1.0):
                     kept.append((c, run))
                 ctx.cov['traces_validated_against_impl'] += 1
             else:
-                hs = evaluate_case(c)
+                try:
+                    hs = evaluate_case(c)
+                except TieBroken as e:
+                    ctx.notes.setdefault('observation_lost', str(e))
+                    hs = []
                 if c['kind'] == 'strength':
                     c2 = dict(c)
                     c2['kind'] = 'phase_params'
@@ -1329,6 +1383,13 @@ def run(ctx):
                        'threshold ties; grain rate on random grids (2-16 classes); free-standing grain runs (free / pinned / frozen, Euler / RK4, 1-3 solve calls); coupled '
                        'runs of the stub-thermodynamics precipitation host with both coupling models over 1-3 solve calls; every Coq goal / exact evaluation counts as one '
                        'evaluation; non-trivial = has particles and at least one contribution (strength), a non-zero rate (Zener), two populated classes (grain)')
+    # ---- 0. the guards of the AST normaliser behave (pairs that must / must not be identified) -------------
+    import c18_normalize
+    bad = c18_normalize.selftest()
+    ctx.notes['normaliser_selftest'] = {'pairs': len(c18_normalize.SELFTEST), 'wrong': bad}
+    if bad:
+        ctx.violation('self-test', {'site': 'harness/c18_normalize.py', 'cls': 'rewrite guard'}, {'broken': {'normaliser pairs': bad}},
+                      'the AST normaliser identifies / separates the wrong programs (self-test pairs %r)' % bad, no_input=True)
     # ---- 1. regenerate ----------------------------------------------------------------------------
     tie_ok, info = regenerate(ctx)
     failed = []
@@ -1355,6 +1416,9 @@ def run(ctx):
         name = c.pop('from_corpus')
         try:
             hs = evaluate_case(c)
+        except TieBroken as e:
+            ctx.notes.setdefault('observation_lost', str(e))
+            hs = []
         except Exception as e:
             hs = [('no_internal_error', 'exception', 'corpus case %s raised %s' % (name, e))]
         ctx.count(clean(c), True)
@@ -1393,6 +1457,10 @@ def run(ctx):
         more, _ = search(ctx, quick, scale=3.0)
         hits += more
     report_hits(ctx, hits)
+    if ctx.notes.get('observation_lost'):
+        ctx.violation('observation', {'site': 'harness/c18.py', 'cls': 'public extension point'},
+                      {'broken': {'tie': 'observation', 'error': ctx.notes['observation_lost']}},
+                      'tie broken: %s' % ctx.notes['observation_lost'], no_input=True)
     if not fresh(hits):
         if not tie_ok:
             ctx.violation('translator', {'site': 'harness/c18_translate.py', 'cls': 'unsupported source'},
@@ -1418,7 +1486,7 @@ def run(ctx):
         'the host is the stub-thermodynamics PrecipitateModel (harness/stubs.py); its own step contract is C05 / C03 territory: host times are assumed strictly increasing (C05_solver_contract)',
         'grain-size distributions with all classes empty (division by a zero moment) are outside the model: theorems carry the hypothesis M3 <> 0']
     ctx.cov['trusted_base'] += ['Coq 8.16.1 kernel, vm_compute, and the Interval tactic (kernel-checked proofs by reflection)',
-                                'translator harness/c18_translate.py (fail-closed; validated on every run by enclosures of its output against the Python methods)',
+                                'translator harness/c18_translate.py with the AST normaliser harness/c18_normalize.py (fail-closed; validated on every run by enclosures of its output against the Python methods)',
                                 'hand-written part of coq/C18/Model.v (wiring of the generated pieces) + correspondence harness harness/c18.py',
                                 'float -> exact rational transport and output parser in harness/common.py; numpy libm (1e-9 relative tolerance of the enclosures)',
                                 'coq/C07 (transport kernels) and coq/C05 (solver clock) models, tied to the code by their own checks']
